@@ -38,6 +38,7 @@ func (ids idSet) keys() []uint16 {
 type msgAndIdSet struct {
 	m     Message
 	idSet idSet
+	done  bool
 }
 
 type Backend func(msg interface{}, from uint16)
@@ -159,7 +160,13 @@ func (r *Receiver) registerMsg(ack msgReception, from uint16, msg Message) {
 		r.reception[ack].m = msg
 	}
 
+	// Forward a message only once, and only if we actually hold it
+	if r.reception[ack].done || r.reception[ack].m == nil {
+		return
+	}
+
 	if len(r.reception[ack].idSet) == r.N-1 {
+		r.reception[ack].done = true
 		r.Logger.Debugf("Collected enough acknowledgements (from %v) on {sender: %d, digest: %s, round: %d}",
 			r.reception[ack].idSet, ack.sender, hex.EncodeToString([]byte(ack.digest[:8])), ack.msgRound)
 		r.ForwardToBackend(r.reception[ack].m, ack.sender)
